@@ -691,13 +691,14 @@ func (dc *ClientDnsConnection) CheckFragmentSizeResponse(in []byte) error {
 
 func (dc *ClientDnsConnection) AutodetectFragmentSize() (uint32, error) {
 	var proposed uint32 = 768
-	var fragmentRange = 8192 - proposed
-	var max uint32 = 0
+	var max uint32 = 0       // largest fragment size that came back intact
+	var tooBig uint32 = 8193 // smallest fragment size known not to work (8192 is the largest ever requested)
 
 	log.Debugf("Autoprobing max downstream fragment size... (skip with -m fragsize)")
-	for !dc.Closed() && (fragmentRange >= 8 || max < 300) {
+	for !dc.Closed() && tooBig-max > 1 && (tooBig-max > 8 || max < 300) {
 		/* stop the slow probing early when we have enough bytes anyway */
-		for i := 0; !dc.Closed() && i < 3; i++ {
+		ok := false
+		for i := 0; !dc.Closed() && !ok && i < 3; i++ {
 			resp, err := dc.SendFragmentSizeTest(proposed, secs(1))
 			if isTimeout(err) {
 				continue
@@ -710,41 +711,31 @@ func (dc *ClientDnsConnection) AutodetectFragmentSize() (uint32, error) {
 			}
 
 			if proposed != resp.FragmentSize {
-				// Keep max as is
 				log.Warnf("Expected %d bytes but server acknowledged %d", proposed, resp.FragmentSize)
 				break
 			} else if uint32(len(resp.Data)) != resp.FragmentSize {
-				log.Warnf("Expected %d bytes but server returned %d", proposed, resp.FragmentSize)
+				log.Warnf("Expected %d bytes but server returned %d", proposed, len(resp.Data))
 				break
 			} else if err := dc.CheckFragmentSizeResponse(resp.Data); err != nil {
 				err = errors.WithStack(err)
-				if dc.Serializer.Downstream.Encoder == enc.Base32Encoding {
-					log.WithError(err).Errorf("Corruption in downstream even with the most basic (Base32) encoder: %v", err)
-					return 0, err
-				} else {
-					log.WithError(err).Errorf("Corruption in downstream even with %v. Try Base32 downstream enodeer: %v", dc.Serializer.Downstream.Encoder, err)
-					return 0, err
-				}
-			} else {
-				max = proposed
+				log.WithError(err).Errorf("Corruption in downstream with %v: %v", dc.Serializer.Downstream.Encoder, err)
+				return 0, err
 			}
-
-			if max < 0 {
-				break
-			}
-
-			fragmentRange = fragmentRange >> 1
-
-			if max == proposed {
-				/* Try bigger */
-				log.Tracef("%d ok, will try %d next.. ", proposed, proposed+fragmentRange)
-				proposed += fragmentRange
-			} else {
-				/* Try smaller */
-				log.Tracef("%d not ok, will try %d next.. ", proposed, proposed-fragmentRange)
-				proposed -= fragmentRange
-			}
+			ok = true
 		}
+		if dc.Closed() {
+			break
+		}
+
+		if ok {
+			/* Try bigger */
+			max = proposed
+		} else {
+			/* Try smaller */
+			tooBig = proposed
+		}
+		log.Tracef("%d ok=%v, will try %d next.. ", proposed, ok, max+(tooBig-max)/2)
+		proposed = max + (tooBig-max)/2
 	}
 	if dc.Closed() {
 		err := errors.New("stopped while autodetecting fragment size (Try setting manually with -m)")
